@@ -3,6 +3,7 @@ package open_game_manager
 import (
 	"encoding/json"
 	"fmt"
+	"sync"
 
 	"github.com/weedbox/syncsaga"
 )
@@ -46,8 +47,10 @@ func NewOpenGameManagerFromState(state OpenGameState, options OpenGameOption) Op
 		},
 	}
 	rebuiltState := m.state
+	var rebuiltOnce sync.Once
 	m.rg.OnCompleted(func(rg *syncsaga.ReadyGroup) {
-		m.readyGroupOnCompleted(rebuiltState)
+		// a set-up fires once: a stopped ready group completes again when it drains a queued repeated signal
+		rebuiltOnce.Do(func() { m.readyGroupOnCompleted(rebuiltState) })
 	})
 
 	m.readyGroupResetParticipants()
@@ -87,8 +90,10 @@ func (m *openGameManager) Setup(gameCount int, participants map[string]int) {
 	}
 	m.state = state
 	m.rg = newReadyGroup(state.Timeout)
+	var once sync.Once
 	m.rg.OnCompleted(func(rg *syncsaga.ReadyGroup) {
-		m.readyGroupOnCompleted(state)
+		// a set-up fires once: a stopped ready group completes again when it drains a queued repeated signal
+		once.Do(func() { m.readyGroupOnCompleted(state) })
 	})
 	for id, idx := range participants {
 		participant := OpenGameParticipant{
